@@ -271,13 +271,16 @@ def repo_fingerprint():
 
 # ----------------------------------------------------------------------------- step 4: running both sides
 
+CASE_TIMEOUT = [20]      # seconds per case before the harness counts it as a hang; a generator may ask for more
+
+
 def hx_env():
     e = dict(os.environ)
     e["ASAN_OPTIONS"] = "detect_leaks=0:abort_on_error=1:handle_abort=1:allocator_may_return_null=1"
     e["UBSAN_OPTIONS"] = "print_stacktrace=1:halt_on_error=1"
     e["QT_LOGGING_RULES"] = "*.debug=false"
     e["LC_ALL"] = "C.UTF-8"        # file names are UTF-8 on disk (QFile::encodeName follows the locale)
-    e.setdefault("HX_CASE_TIMEOUT", "20")
+    e.setdefault("HX_CASE_TIMEOUT", str(CASE_TIMEOUT[0]))
     return e
 
 
@@ -379,7 +382,7 @@ def run_both(prop, cases):
 # ----------------------------------------------------------------------------- step 5: shrink
 
 # top-level positions that hold oracle tables (tabulated answers of Qt): never shrunk
-PROTECT = {"sock": {2}, "srv": {2}, "srvm": {2}, "fs": {0, 1, 4}, "fsm": {0, 1, 3}, "bauth": {3}, "bauthm": {2}, "slot": {2}, "slotm": {2}, "proxy": {5}}
+PROTECT = {"sock": {2}, "sockl": {2}, "socknet": {2}, "srv": {2}, "srvm": {2}, "fs": {0, 1, 4}, "fsm": {0, 1, 3}, "bauth": {3}, "bauthm": {2}, "slot": {2}, "slotm": {2}, "proxy": {5}}
 
 
 def candidates(v, protect=frozenset()):
@@ -516,6 +519,7 @@ def main():
     tier = sys.argv[2]
     seed = int(os.environ.get("VERIF_SEED", "1"))
     gen = importlib.import_module("gen_" + prop.lower())
+    CASE_TIMEOUT[0] = int(getattr(gen, "CASE_TIMEOUT", 20))
 
     violations = []  # (line, replay)
     known_hits = []
